@@ -169,6 +169,9 @@ theorem paxBody_length_ge (recs : List (Bytes × Bytes)) : recs.length ≤ (paxB
 structure PMemberOK (m : PMember) : Prop where
   notX : m.hdr.typeflag ≠ 120
   recs : RecsOK m.pax
+  /-- a `path` / `linkpath` record carries the member's own name / link name -/
+  pathRec : ∀ v, lookupB (b!"path") m.pax = some v → v = m.hdr.name
+  linkRec : ∀ v, lookupB (b!"linkpath") m.pax = some v → v = m.hdr.linkname
 
 theorem collapse_expand (ms : List PMember) (ok : ∀ m ∈ ms, PMemberOK m) :
     collapse (ms.flatMap expand) = some ms := by
@@ -203,15 +206,29 @@ theorem collapse_expand (ms : List PMember) (ok : ∀ m ∈ ms, PMemberOK m) :
         simp only [List.singleton_append]
         unfold collapse
         simp only [hm.notX, if_false, ihr, Option.map_some, hmm]
-    · have he : expand m = [{ hdr := xHdr m.hdr.name (paxBody m.pax).length, body := paxBody m.pax }, { hdr := m.hdr, body := m.body }] := by
+    · have he : expand m = [{ hdr := xHdr m.hdr.name (paxBody m.pax).length, body := paxBody m.pax }, { hdr := mainHdr m, body := m.body }] := by
         simp [expand, hp]
       rw [he]
       simp only [List.cons_append, List.nil_append]
       unfold collapse
       have hx : (xHdr m.hdr.name (paxBody m.pax).length).typeflag = 120 := rfl
-      simp only [hx, if_true, hm.notX, if_false]
+      have hmt : (mainHdr m).typeflag = m.hdr.typeflag := rfl
+      simp only [hx, if_true, hmt, hm.notX, if_false]
       rw [parseRecords_paxBody m.pax hm.recs _ (by have := paxBody_length_ge m.pax; omega)]
       simp only [ihr, Option.map_some]
+      -- the records put the full name and link name back
+      have hn : (lookupB (b!"path") m.pax).getD (mainHdr m).name = m.hdr.name := by
+        unfold mainHdr
+        cases hl : lookupB (b!"path") m.pax with
+        | none => simp
+        | some v => simp [hm.pathRec v hl]
+      have hln : (lookupB (b!"linkpath") m.pax).getD (mainHdr m).linkname = m.hdr.linkname := by
+        unfold mainHdr
+        cases hl : lookupB (b!"linkpath") m.pax with
+        | none => simp
+        | some v => simp [hm.linkRec v hl]
+      rw [hn, hln]
+      rfl
 
 end Nfpm.Tar
 
@@ -357,14 +374,14 @@ theorem xName_ok (name : Bytes) (h0 : (0 : UInt8) ∉ name) : (xName name).lengt
   simp only []
   generalize hj : clean (joinWith slash (List.filter (fun x => decide (x ≠ [])) [uptoLastSlash name, b!"PaxHeaders.0",
     List.drop (uptoLastSlash name).length name])) = j
-  obtain ⟨q, hq⟩ := trimRight_prefix slash (j.take 100)
+  obtain ⟨q, hq⟩ := trimRight_prefix slash ((asciiOnly j).take 100)
   constructor
   · have := congrArg List.length hq
     simp only [List.length_append, List.length_take] at this
     omega
   · intro hin
-    have h1 : (0 : UInt8) ∈ j.take 100 := by rw [hq]; exact List.mem_append_left _ hin
-    have h2 : (0 : UInt8) ∈ j := List.mem_of_mem_take h1
+    have h1 : (0 : UInt8) ∈ (asciiOnly j).take 100 := by rw [hq]; exact List.mem_append_left _ hin
+    have h2 : (0 : UInt8) ∈ j := (List.mem_filter.mp (List.mem_of_mem_take h1)).1
     rw [← hj] at h2
     rcases mem_clean _ _ h2 with h3 | h3 | h3
     · rcases mem_joinWith _ _ _ h3 with h4 | ⟨c, hc, hx⟩
